@@ -2,7 +2,7 @@
 (clause: the ambiguity NFA uses one alphabet)."""
 import re
 
-from . import core
+from . import core, symex
 from .core import callee_of
 from .report import Report
 
@@ -119,3 +119,40 @@ def check_config(rep, f, cfg):
                    "(e.g. terminals r\"\\u00e9\" and r\"[\\u00e9a]\" are accepted without an ambiguity error)" % (arm, tag, want, "on" if unicode else "off"),
                    key="alphabet:%s:%s" % (arm, tag), file=b.relfile(), line=ln, fn=b.path)
     rep.floor("[%s] Test constructor uses in Nfa::expr" % cfg, n_sites, 3)
+    if cfg == "default":
+        repetition_table(rep, f, ex)
+
+
+def repetition_table(rep, f, ex):
+    """The build-time NFA must give counted repetitions the meaning the runtime regex engine gives them:
+    e? -> optional, e* -> star, e+ -> plus, e{n,} -> n mandatory copies followed by e* (symbolic evaluation of
+    Nfa::expr: result term per path condition on (min, max))."""
+    rets = symex.term_eval(f, ex, inline=lambda p: False, max_paths=600)
+    n = 0
+    seen = set()
+    for r in rets:
+        v = r[0]
+        if not (v and v[0] == "app"):
+            continue
+        head = v[1][1].split("::")[-1] if v[1][0] == "fn" else "?"
+        mins = [val for _, t, val in r.pc if symex.show_term(t).endswith("Repetition).0.min")]
+        minv = mins[0] if mins else None
+        maxs = [val for _, t, val in r.pc if symex.show_term(t).startswith("discr(") and symex.show_term(t).endswith("Repetition).0.max)")]
+        if head in ("star_expr", "plus_expr", "optional_expr"):
+            n += 1
+            seen.add(head)
+            want = {"star_expr": 0, "plus_expr": 1, "optional_expr": 0}[head]
+            ok = minv == want and ((head == "optional_expr") == (bool(maxs) and maxs[-1] == 1))
+            rep.ob("repetition.%s" % head, "Nfa::expr -> %s when min == %s, max %s" % (head, minv, "Some" if maxs and maxs[-1] == 1 else "None"), ok,
+                   "%s is used for a repetition with min = %s" % (head, minv), key="repetition:%s" % head, file=ex.relfile(), line=ex.line, fn=ex.path)
+        elif head == "and_then":
+            n += 1
+            inner = v[2][0] if v[2] else None
+            ih = inner[1][1].split("::")[-1] if inner and inner[0] == "app" and inner[1][0] == "fn" else "?"
+            seen.add("and_then:" + ih)
+            rep.ob("repetition.at-least-n-ends-in-star", "Nfa::expr -> and_then(%s(..), |s| n copies)" % ih, ih == "star_expr",
+                   "e{n,} is built as n mandatory copies followed by %s: the ambiguity check then works on e{n+1,} (or a different language) while the "
+                   "runtime lexer matches e{n,}" % ih, key="repetition:at-least-n", file=ex.relfile(), line=ex.line, fn=ex.path)
+    rep.ob("repetition.table-complete", sorted(seen), {"star_expr", "plus_expr", "optional_expr", "and_then:star_expr"} <= seen or any(x.startswith("and_then:") for x in seen) and {"star_expr", "plus_expr", "optional_expr"} <= seen,
+           "repetition arms seen: %s" % sorted(seen), key="repetition:arms")
+    rep.floor("repetition arms evaluated", n, 4)
